@@ -281,7 +281,7 @@ func init() {
 		Batches:      func(tier string) int { return 16 },
 		ChildTimeout: func(string) time.Duration { return 40 * time.Minute },
 		Run:          runC08,
-		Required:     []string{"context_comparisons", "context_comparisons_after_epoch_boundary", "context_comparisons_after_upgrade", "context_comparisons_with_deposit_in_epoch", "reload_lineages_compared", "pubkey_lookups_compared", "sync_period_boundaries_seen", "forky_sibling_deposits"},
+		Required:     []string{"context_comparisons", "context_comparisons_after_epoch_boundary", "context_comparisons_after_upgrade", "context_comparisons_with_deposit_in_epoch", "reload_lineages_compared", "pubkey_lookups_compared", "sync_period_boundaries_seen", "forky_sibling_deposits", "epochs_whose_proposers_depend_on_the_effective_balances_changed_at_their_boundary"},
 	})
 }
 
@@ -292,7 +292,7 @@ func runC07(b *fw.B) {
 	if !quick {
 		nChains = 6
 	}
-	fams := []string{"ragged", "churn", "capella", "custom", "steady", "leak"}
+	fams := []string{"ragged", "shock", "capella", "custom", "churn", "shock", "steady", "leak"}
 	for k := 0; k < nChains && !b.Stop(); k++ {
 		if quick && b.Batch%2 == 1 {
 			break
@@ -529,11 +529,14 @@ func runC08(b *fw.B) {
 	if !quick {
 		n = 12
 	}
-	fams := []string{"churn", "custom", "capella", "ragged", "churn", "custom", "steady", "leak"}
+	// massslash: effective balances of active validators drop to (almost) nothing at epoch boundaries, so the proposers of the new
+	// epoch depend on the effective balances as they are AFTER the boundary
+	fams := []string{"churn", "custom", "capella", "shock", "massslash", "ragged", "shock", "leak"}
 	for k := 0; k < n && !b.Stop(); k++ {
 		fam := fams[(b.Batch+k)%len(fams)]
 		sc := drawScenario(b.Rng, fam, quick, (b.Batch+k)%3 == 0)
 		sc.StepEvery = true
+		var prevEff []uint64
 		if fam == "churn" || fam == "custom" {
 			sc.PDeposits = 0.6
 		}
@@ -585,6 +588,28 @@ func runC08(b *fw.B) {
 					epochHadDeposit = false
 					boundaries++
 					b.Inc("context_comparisons_after_epoch_boundary")
+					// did this boundary change effective balances in a way the new epoch's proposers depend on?
+					if prevEff != nil {
+						old := st.Copy()
+						changed := false
+						for i := range old.Validators {
+							if i < len(prevEff) && old.Validators[i].EffectiveBalance != prevEff[i] {
+								old.Validators[i].EffectiveBalance = prevEff[i]
+								changed = true
+							}
+						}
+						if changed {
+							b.Inc("epoch_boundaries_that_changed_effective_balances")
+							for sl := c.Sp.StartSlot(ep); sl < c.Sp.StartSlot(ep+1); sl++ {
+								pn, e1 := c.Sp.ProposerIndexAtSlot(st, sl)
+								po, e2 := c.Sp.ProposerIndexAtSlot(old, sl)
+								if e1 == nil && e2 == nil && pn != po {
+									b.Inc("epochs_whose_proposers_depend_on_the_effective_balances_changed_at_their_boundary")
+									break
+								}
+							}
+						}
+					}
 					if st.Fork >= refspec.Altair && ep%c.Sp.EPOCHS_PER_SYNC_COMMITTEE_PERIOD == 0 {
 						b.Inc("sync_period_boundaries_seen")
 					}
@@ -595,6 +620,10 @@ func runC08(b *fw.B) {
 				if st.Fork != lastFork {
 					b.Inc("context_comparisons_after_upgrade")
 					lastFork = st.Fork
+				}
+				prevEff = prevEff[:0]
+				for i := range st.Validators {
+					prevEff = append(prevEff, st.Validators[i].EffectiveBalance)
 				}
 				fresh, err := common.NewEpochsContext(c.ZSpec, c.Z.BeaconState)
 				if err != nil {
